@@ -13,7 +13,7 @@ CHECKS = {
         "engine_name": "vh-seq", "design_ref": "DESIGN.md §4 C01",
         "technique": "runtime monitoring: real sequential solver runs judged by a reference-model oracle (exhaustive/DP optimum), non-termination witness monitor on the fringe",
         "level_text": "Exploration: hundreds of thousands of real SequentialSolver executions per run (bounded-exhaustive on a tiny knapsack grid x the full configuration product, random beyond) each compared with the exhaustive/DP optimum of the same instance; both an overflow-checked and a plain release build of ddo are exercised. Right level because the property quantifies over all models and configurations: only sampling + small-scope exhaustiveness is available to a run-time oracle.",
-        "level_note": "Trusted: the harness oracles (backward DP per family) and the well-formedness of the generated models. Not covered: models outside the three families, instances larger than ~12 variables, user-defined fringes/rankings other than MaxUB.",
+        "level_note": "Trusted: the harness oracles (backward DP per family) and the well-formedness of the generated models. Not covered: models outside the four families (T, K, P, Q), instances larger than ~44 variables, user-defined fringes/rankings other than MaxUB.",
         "budget": {"quick": 25, "thorough": 420},
         "rule": "real SequentialSolver runs (NoCutoff) on (a) the bounded-exhaustive knapsack grid n<=3, w,p in {1,2}, cap<=4 x {LEL,frontier,pooled} x cache on/off x {simple,no-dup fringe} x widths 1..3 x rub {none,exact} x dominance {none,capacity} (a 1/7 slice in the quick tier) and (b) random instances of families T (table DP with powerset relaxation and deferred bonus; depth-free, permuted order, irrelevance, absorbing, re-convergent variants), K (knapsack), P (set packing with dynamic variable order and long arcs) and Q (common-subsequence style position vectors, impacted only by the variable matching the first position) x random configurations (width heuristics FixedWidth 1..4, NbUnassignedWidth, Times, DivBy; rub none/exact/slack; dominance none/exact/weak; three state rankings); verdict by the exhaustive/DP optimum of the same instance. Non-trivial = the branch-and-bound popped >= 2 sub-problems and squashed (merged or truncated) at least one layer; distinct by (instance hash, configuration, variant).",
         "assumptions": COMMON_ASSUMPTIONS + ["non-termination is decided by a witness: the same sub-problem re-enqueued itself 200 times while being processed (then the cutoff is fired to end the run); a pop budget exhausted without witness is inconclusive"],
@@ -198,6 +198,24 @@ CHECKS = {
         "assumptions": ["oracles written from the problem statements, not from the DP models", "instance paths always have a parent directory (tsptw derives the instance name from it)", "what was not executed is not covered"],
     },
 }
+
+# Workload extensions made after the seeded-change rounds 3 (scale) and 4 (off the beaten path); appended to the rule texts.
+ADDENDA = {
+    "C01": "Scale: dedicated shards add medium (12-20 variables) and large (20-44 variables, widths up to 14) instances of T/K/P, incl. the deceptive table variant (24-36 layers, 16-64 base states, terminal reward behind one base state, rough bound = sum of per-layer maxima) whose searches keep hundreds of open sub-problems; long runs are bounded by a logical budget of 150 000 cutoff polls (inconclusive, never a violation). Rankings include a flat one (every comparison Equal); the knapsack reward is read off the (source, destination) state pair.",
+    "C03": "Scale: the free-running shards (release flavour) spend ~1/2 of their cases on large instances (5/32 general, 12/32 deceptive tables with cache) with 2-16 threads, no injected delays there; measured runs of up to 116 consecutive cache refusals at the top of the fringe.",
+    "C04": "Scale: free-running shards (release flavour) with 10/32 large and 4/32 deceptive instances, 1-16 threads (construction count and with_nb_threads independently), fringes of more than 64 sub-problems.",
+    "C05": "A third (sequential) / half (parallel) of the cut-off runs call maximize() a second time on the interrupted solver (the cutoff keeps answering stop): the bounds, solution and exactness flag judged are those after the second call. Instances whose uninterrupted run needs more than 4 000 (quick) / 20 000 (thorough) polls are skipped (counted); one shard takes large instances.",
+    "C06": "One main compilation in six runs under a counting cutoff that fires at a pseudo-random poll: either it is reported (Err) or the compilation claims to be complete and every clause applies. One case in three also compiles a leaf sub-problem (complete assignment, no variable left).",
+    "C07": "Same extensions as C06 (counting cutoffs on the judged compilations, leaf sub-problems).",
+    "C09": "Scale: stress shards with 10/32 large and 12/32 deceptive instances; on large deceptive instances the non-caching run is skipped three times out of four and says nothing when it exhausts the step budget: the caching solver is then judged against the oracle optimum alone.",
+    "C10": "Half of the solver-level cases sit on the corner that exposed H7 (re-convergent tables, rule weak, width 1-2, random ranking); a small share of large / deceptive instances (run without checker skipped there, oracle only). The rule weak is confined to this campaign (finding H13).",
+    "C11": "Every history is run in two allocation modes: each push allocates its own Arc, or pushes of equal states share one Arc (as clones of a sub-problem do).",
+    "C12": "A third of the driver cases use long-arc instances, two thirds of those with a conservative is_impacted_by (states whose members are all irrelevant may still claim to be impacted, so that a merge can return a state that waits in the pool of the pooled diagram); a quarter of the table instances are in the big-M style (forbidden decisions stay in the domain and cost isize::MIN, values saturate).",
+    "C19": "Instances whose uninterrupted run needs more than 4 000 (quick) / 20 000 (thorough) polls are skipped (counted); longer runs than 300 polls have ~90 sampled indices (windows of 3 consecutive indices + the first and last two).",
+    "C20": "Medium / large instances: only the first 40 compilations of a case are rendered (each under 16 configurations); leaf sub-problems (single-node diagrams) are rendered too.",
+}
+for _k, _t in ADDENDA.items():
+    CHECKS[_k]["rule"] = CHECKS[_k]["rule"].rstrip() + " " + _t
 
 HOOK_COMMITS = ["da0cac8"]
 
